@@ -7,7 +7,9 @@ import (
 	"net"
 	"time"
 
+	"github.com/PurpleSec/logx"
 	"github.com/iDigitalFlame/xmt/c2/cfg"
+	"github.com/iDigitalFlame/xmt/c2/cout"
 	"github.com/iDigitalFlame/xmt/com"
 	"github.com/iDigitalFlame/xmt/data"
 	"github.com/iDigitalFlame/xmt/device"
@@ -59,7 +61,7 @@ func (p verifC12Profile) MarshalBinary() ([]byte, error)                    { re
 // server) or a server-side one (parent Listener, job table).
 func VerifC12NewSession(client bool) *Session {
 	s := &Session{send: make(chan *com.Packet, 256)}
-	s.ctx = context.Background()
+	s.ctx, s.log = context.Background(), cout.New(logx.NOP)
 	if !client {
 		s.parent = &Listener{}
 		s.jobs = make(map[uint16]*Job)
@@ -140,3 +142,20 @@ func VerifC12ReceiveSingle(s *Session, n *com.Packet) { receiveSingle(s, n) }
 
 // VerifC12HasJobs reports the number of tracked jobs.
 func VerifC12HasJobs(s *Session) int { return len(s.jobs) }
+
+// VerifC12MuxInternal runs muxHandleInternal (the client's handler of Mv* tasks) on n and returns
+// the result body it wrote (C12: the MvProxy task driving the REAL NewProxy / Replace / Close).
+func VerifC12MuxInternal(s *Session, n *com.Packet) ([]byte, error) {
+	var w com.Packet
+	err := muxHandleInternal(s, n, &w)
+	return w.Payload(), err
+}
+
+// VerifC12ProxyState reports the attached proxy record of a client Session: attached, still
+// active, and the name / bind string of the Proxy object (read-only).
+func VerifC12ProxyState(s *Session) (bool, bool, string, string) {
+	if s.proxy == nil {
+		return false, false, "", ""
+	}
+	return true, s.proxy.IsActive(), s.proxy.name, s.proxy.addr
+}
